@@ -538,55 +538,69 @@ def work(item):
     return out
 
 
+def prep(args):
+    """one case -> its (fresh, unpickled) work items and driver lines.  Pure function of args (run in a pool)."""
+    ci, c, full_sel, seed = args
+    out = {"skips": [], "violations": [], "items": [], "lines": []}
+    arr, why = build_case(c)
+    if arr is None:
+        out["skips"].append("generator-could-not-build-base")
+        return out
+    pos, edges, crossing = arr
+    if len(edges) and np.any(edges[:, 0] == edges[:, 1]):
+        out["skips"].append("malformed-self-loop(not in C01's input space)")
+        return out
+    full = (full_sel and len(pos) <= 100) or full_sel == "force" or c["family"] in ("raw", "append_isolated")
+    for variant in ("fresh", "unpickled"):
+        if variant == "unpickled":
+            try:
+                l2 = make_lattice(arr, "unpickled")
+            except Exception as e:
+                if len(edges) == 0:
+                    # __getstate__ took np.min of the empty crossing array (fixed in /repo d5da286): no unpickled
+                    # lattice exists.  Pickling is C09's property; counted here.
+                    out["skips"].append("unpicklable-lattice-without-edges(C09)")
+                    continue
+                out["violations"].append(("unpickle-raises", f"pickle round trip raised {type(e).__name__}: {e}"))
+                continue
+            arr_v = (np.asarray(l2.vertices.positions, dtype=float), np.asarray(l2.edges.indices, dtype=int).reshape(-1, 2),
+                     np.asarray(l2.edges.crossing, dtype=int).reshape(-1, 2))
+        else:
+            arr_v = arr
+        hists = histories_for(full, ci, seed)
+        line, S = ser_lattice_arrays(*arr_v)
+        want_adjm = "1" if len(pos) <= 40 else "0"
+        out["lines"].append("c02 " + line + f" {want_adjm} {len(hists)} " + " ".join(f"{len(h)} " + " ".join(map(str, h)) for h in hists))
+        out["items"].append({"arr": arr, "variant": variant, "hists": hists, "S": S, "case": c, "full": full, "arr_v": arr_v})
+    return out
+
+
+def pool_map(f, xs, chunksize=8):
+    jobs = int(os.environ.get("VERIF_JOBS", "8"))
+    if len(xs) >= 32 and jobs > 1:
+        with ProcessPoolExecutor(jobs) as ex:
+            return list(ex.map(f, xs, chunksize=chunksize))
+    return [f(x) for x in xs]
+
+
 def evaluate(ctx, cases, label, n_full=60, force_full=False):
     res = ctx.res
     items, lines = [], []
-    idx = 0
     stride = max(1, len(cases) // max(1, n_full))
-    for ci, c in enumerate(cases):
-        arr, why = build_case(c)
-        if arr is None:
-            res.skip("generator-could-not-build-base")
-            continue
-        pos, edges, crossing = arr
-        if len(edges) and np.any(edges[:, 0] == edges[:, 1]):
-            res.skip("malformed-self-loop(not in C01's input space)")
-            continue
-        full = force_full or (ci % stride == 0 and len(pos) <= 120) or c["family"] in ("raw", "append_isolated")
-        for variant in ("fresh", "unpickled"):
-            if variant == "unpickled":
-                try:
-                    l2 = make_lattice(arr, "unpickled")
-                except Exception as e:
-                    if len(edges) == 0:
-                        # __getstate__ takes np.min of the empty crossing array: no unpickled lattice exists.
-                        # Pickling is C09's property; counted here, reported to the lead.
-                        res.skip("unpicklable-lattice-without-edges(C09)")
-                        continue
-                    res.count(c["family"])
-                    res.violation("unpickle-raises", f"pickle round trip raised {type(e).__name__}: {e}", c)
-                    continue
-                arr_v = (np.asarray(l2.vertices.positions, dtype=float), np.asarray(l2.edges.indices, dtype=int).reshape(-1, 2),
-                         np.asarray(l2.edges.crossing, dtype=int).reshape(-1, 2))
-            else:
-                arr_v = arr
-            hists = histories_for(full, idx, ctx.seed)
-            line, S = ser_lattice_arrays(*arr_v)
-            want_adjm = "1" if len(pos) <= 40 else "0"
-            lines.append("c02 " + line + f" {want_adjm} {len(hists)} " + " ".join(f"{len(h)} " + " ".join(map(str, h)) for h in hists))
-            items.append({"arr": arr, "variant": variant, "hists": hists, "S": S, "case": c, "full": full, "arr_v": arr_v})
-        idx += 1
+    for c, pr in zip(cases, pool_map(prep, [(ci, c, "force" if force_full else (ci % stride == 0), ctx.seed) for ci, c in enumerate(cases)])):
+        for w in pr["skips"]:
+            res.skip(w)
+        for key_, what in pr["violations"]:
+            res.count(c["family"])
+            res.violation(key_, what, c)
+        items += pr["items"]
+        lines += pr["lines"]
     outs = run_driver_parallel(ctx.exe["c02"], lines)
     for it, o in zip(items, outs):
         it["model"] = parse_model(o, it["S"])
         if "error" in it["model"]:
             raise RuntimeError(f"driver error {it['model']['error']} on {it['case']}")
-    jobs = int(os.environ.get("VERIF_JOBS", "8"))
-    if len(items) >= 32 and jobs > 1:
-        with ProcessPoolExecutor(jobs) as ex:
-            results = list(ex.map(work, items, chunksize=8))
-    else:
-        results = [work(it) for it in items]
+    results = pool_map(work, items)
     cd = res.extra.setdefault("coordination_number_histogram", {})
     for it, r in zip(items, results):
         c = it["case"]
@@ -625,9 +639,9 @@ def all_cases(tier, seed, exhaustive=True):
 def run(ctx):
     ctx.res.rule = ("C01's lattice families (Voronoi 2..N seeds, cuts/strips, edge-deleted and vertex-isolated subgraphs incl. isolated highest index, duals, tilings, "
                     "example graphs, exhaustive edge subsets of small bases) + explicit isolated-highest-vertex / coordination 0..12 inputs; each as a fresh and as an "
-                    "unpickled lattice; all 24 first-access orders + 2 histories with repeats on ~60 spread lattices and all explicit inputs, 2 orders on the rest; "
+                    "unpickled lattice; all 24 first-access orders + 2 histories with repeats on ~60 (thorough: ~200) spread lattices with V <= 100 and all explicit inputs, 2 orders on the rest; "
                     "non-trivial = distinct lattice (hash of arrays) with >= 1 plaquette")
-    evaluate(ctx, all_cases(ctx.tier, ctx.seed), "K(tables, queries, cache)", n_full=60 if ctx.tier == "quick" else 400)
+    evaluate(ctx, all_cases(ctx.tier, ctx.seed), "K(tables, queries, cache)", n_full=60 if ctx.tier == "quick" else 200)
 
 
 def search(ctx):
